@@ -107,6 +107,8 @@ class CheckContext:
                   f"inapplicable={len(r.inapplicable)} err={bool(r.error)} {r.time:.1f}s", file=sys.stderr, flush=True)
             for pid, why in r.inapplicable[:3]:
                 print(f"      inapplicable path{pid}: {why}", file=sys.stderr)
+            for v in [v for v in r.vcs if v.status != "proved"][:4]:
+                print(f"      {v.status} {v.name} path{v.path_id}: {v.note[:300]}", file=sys.stderr)
             if r.error:
                 print("      " + r.error[-600:], file=sys.stderr)
         return r
